@@ -23,13 +23,13 @@ type Call struct {
 // Ledger is the harness's BaseStorage: a map, a per-address index counter ("counter + 1"),
 // a call log and a fault plan (positions of failing Store/Remove calls since ResetCalls).
 type Ledger struct {
-	Seg      map[atree.SlabID][]byte
-	Idx      map[atree.Address]uint64
-	Log      []Call
-	FailAt   map[int]bool
-	ReadFail map[atree.SlabID]bool
-	Jitter   bool
-	n        int
+	Seg               map[atree.SlabID][]byte
+	Idx               map[atree.Address]uint64
+	Log               []Call
+	FailAt            map[int]bool
+	ReadFail          map[atree.SlabID]bool
+	Jitter            bool
+	n                 int
 	retrieved, stored int
 }
 
@@ -103,10 +103,16 @@ func (l *Ledger) GenerateSlabID(a atree.Address) (atree.SlabID, error) {
 	return MkID(a, l.Idx[a]), nil
 }
 
-func (l *Ledger) SegmentCounts() int   { return len(l.Seg) }
-func (l *Ledger) Size() int            { n := 0; for _, v := range l.Seg { n += len(v) }; return n }
-func (l *Ledger) BytesRetrieved() int  { return l.retrieved }
-func (l *Ledger) BytesStored() int     { return l.stored }
+func (l *Ledger) SegmentCounts() int { return len(l.Seg) }
+func (l *Ledger) Size() int {
+	n := 0
+	for _, v := range l.Seg {
+		n += len(v)
+	}
+	return n
+}
+func (l *Ledger) BytesRetrieved() int   { return l.retrieved }
+func (l *Ledger) BytesStored() int      { return l.stored }
 func (l *Ledger) SegmentsReturned() int { return 0 }
 func (l *Ledger) SegmentsUpdated() int  { return 0 }
 func (l *Ledger) SegmentsTouched() int  { return 0 }
